@@ -168,5 +168,6 @@ def run(ck, ctx):
                 writers.append(p)
     ck.ob("C24.3", "constructors", writers and all(w.startswith("asm::LineSymbolMap::from_blocks::{closure#") for w in writers), "LineSymbolMap values are built only in %s (allowed: validated constructor)" % sorted(set(writers)), "src/asm.rs")
     ck.assume("`src` given to assemble_debug is the text the AST was parsed from (spans index that text)")
+    ck.include("C25", ctx, "C24.5", {"C25.1"}, "the recorded line of a statement is get_line(byte offset) over the newline byte offsets of from_string")
     ck.assume("strict increase inside a block follows from C24.1 + Cursor::shift (C02); .blkw 0 is rejected by the parser (C05)")
     ck.assume("not decided: the arithmetic consequence 'get(find(a)) == a' itself; it is argued from the normal forms (predecessor block + offset vs. binary search + start)")
